@@ -45,6 +45,15 @@ type lcScen struct {
 	Producer string   `json:"producer"` // simple | erroring
 	Steps    []lcStep `json:"steps"`
 	ReqKinds []string `json:"reqkinds"` // request kind per client c1, c2, ... (default trigger)
+	Free     *lcFree  `json:"free"`     // free-running schedule: no gates, the Go scheduler decides
+}
+
+// lcFree: Start, then NStop simultaneous Stop callers after DelayUs (the erroring source ends itself at about the same
+// time).  No step is scripted: the End event (returns, state, census, restart probe) is what gets judged.
+type lcFree struct {
+	NStop   int `json:"nstop"`
+	DelayUs int `json:"delayus"`
+	Rounds  int `json:"rounds"` // start/stop cycles on the same source object (the last one is the tracked one)
 }
 
 type lcArrival struct {
@@ -117,7 +126,13 @@ func lcVPoint(name string) {
 func lcVEvent(name string, kv ...any) {
 	lc.mu.Lock()
 	on := lc.active && !lc.open
+	act := lc.active
 	lc.mu.Unlock()
+	if act && len(kv) == 2 && kv[0] == "held" {
+		// vheld: is the state lock held where the code acts on the state it has just read?
+		vEmit(vmap{"ev": "Held", "name": name, "held": kv[1]})
+		return
+	}
 	if on && name == "RunDone.deactivate" {
 		lc.arrivals <- lcArrival{role: "core", point: "deactivated"}
 	}
@@ -354,6 +369,60 @@ func lcRun(id int, sc *lcScen, base string) {
 			return
 		}
 		lcRelease(role)
+	}
+	if sc.Free != nil {
+		lc.mu.Lock()
+		lc.open = true
+		lc.mu.Unlock()
+		rounds := sc.Free.Rounds
+		if rounds < 1 {
+			rounds = 1
+		}
+		for round := 0; round < rounds; round++ {
+			name := srcName
+			ok := false
+			st0 := lcStateName(ds.GetState())
+			err := ctl.Start(&name, &ok)
+			ret := "ret:"
+			if err != nil {
+				ret += err.Error()
+			}
+			st := lcStateName(ds.GetState())
+			vEmit(vmap{"ev": "Step", "i": round, "a": "StartReturn", "r": "ok", "role": "st1", "phase": "", "why": "", "nres": 0, "st0": st0, "st": st,
+				"flag": ctl.isSourceActive, "mst": st, "mflag": ctl.isSourceActive, "afterstops": false, "quiet": sc.Producer != "erroring",
+				"census": lcCensusDelta(census0), "ret": ret})
+			if err != nil {
+				break
+			}
+			time.Sleep(time.Duration(sc.Free.DelayUs) * time.Microsecond)
+			gate := make(chan struct{})
+			if round == rounds-1 {
+				// the last round's callers are tracked by the drain phase (hangs are reported with their blocking frame)
+				for k := 1; k <= sc.Free.NStop; k++ {
+					role := fmt.Sprintf("s%d", k)
+					lcSpawn(role, func() error { <-gate; d := "x"; ok := false; return ctl.Stop(&d, &ok) })
+					spawned[role] = true
+				}
+				close(gate)
+				break
+			}
+			var wg sync.WaitGroup
+			for k := 1; k <= sc.Free.NStop; k++ {
+				wg.Add(1)
+				go func() { defer wg.Done(); <-gate; d := "x"; ok := false; ctl.Stop(&d, &ok) }()
+			}
+			close(gate)
+			alldone := make(chan struct{})
+			go func() { wg.Wait(); close(alldone) }()
+			select {
+			case <-alldone:
+			case <-time.After(3 * time.Second):
+				problem = "a Stop call of an earlier round did not return"
+			}
+			if problem != "" || ds.GetState() != Inactive {
+				break // the End event shows the harm
+			}
+		}
 	}
 	kindOf := func(c string) string {
 		i, _ := strconv.Atoi(strings.TrimPrefix(c, "c"))
